@@ -201,4 +201,9 @@ def run(ctx, rep) -> None:
     step = ctx.repo.method(DS, "step")
     schedule_expr_check(ctx, rep, "C02.2", step, "use_grafting_method", lambda s, a, f, env: s < a and next(iter(v for k, v in env.items() if isinstance(v, dict)))["grafting_config"] is not None, "step < start and grafting_config is not None", extra_env={"__graft__": [None, "cfg"]})
     graft_dataflow(ctx, rep, "C02.3", "C02.4")
-    rep.assume("equality of trajectories with torch.optim.* and exact norm equality are numerical and NOT decided")
+    from .arith import adagrad_arithmetic, step_arithmetic
+
+    rep.rule("C02.5", "arithmetic of the grafted method: V <- V + G^2 | beta2*V + (1-beta2)*G^2, bias_correction2 = 1 - beta2^step, direction = G / (sqrt(V/bias_correction2) + eps); norm transfer P * ||graft|| / (||P|| + tiny) inside the group step (exact term comparison)")
+    adagrad_arithmetic(ctx, rep, "C02.5")
+    step_arithmetic(ctx, rep, "C02.5")
+    rep.assume("equality of trajectories with torch.optim.* is implied only up to floating-point evaluation order: C02.5 proves the formulas equal as rational functions, not the rounding")
